@@ -35,6 +35,7 @@ class Ctx:
         self.closures = {}
         self.fresh = 0
         self.yield_arity = 0
+        self.loopvars = {}   # name -> T  (variables of the enclosing for loops: plain Gallina binders inside the body)
 
     def gensym(self):
         self.fresh += 1
@@ -101,6 +102,10 @@ def to_bool(ctx, t):
 
 
 def coerce(ctx, t, ty):
+    if ty == "zlist":
+        if t.ty != "zlist":
+            raise Decline("list of ints expected, got " + t.ty)
+        return t
     return {"Z": to_z, "optZ": to_optz, "bool": to_bool}[ty](ctx, t)
 
 
@@ -136,6 +141,16 @@ def obj_expr(ctx, e):
     raise Decline("object expression " + type(e).__name__)
 
 
+def dict_field(ctx, e):
+    """mapping.offset_to_line / mapping.offset_to_additional_line_offsets of a parameter declared as a line mapping"""
+    if isinstance(e, ast.Attribute) and isinstance(e.value, ast.Name) and ctx.params.get(e.value.id) == "linemap":
+        if e.attr == "offset_to_line":
+            return ("(lm_lines %s)" % e.value.id, "odictOptZ")
+        if e.attr == "offset_to_additional_line_offsets":
+            return ("(lm_adds %s)" % e.value.id, "odictZlist")
+    return None
+
+
 ARITH = {ast.Add: "Z.add", ast.Sub: "Z.sub", ast.Mult: "Z.mul", ast.FloorDiv: "Z.div", ast.Mod: "Z.modulo",
          ast.BitAnd: "Z.land", ast.BitOr: "Z.lor", ast.LShift: "Z.shiftl", ast.RShift: "Z.shiftr"}
 ORDER = {ast.Lt: "Z.ltb", ast.LtE: "Z.leb", ast.Gt: "Z.gtb", ast.GtE: "Z.geb"}
@@ -151,6 +166,11 @@ def expr(ctx, e):
         if isinstance(v, int):
             return T("(%d)" % v, "Z")
         raise Decline("constant %r" % (v,))
+    if isinstance(e, ast.Name) and e.id in ctx.loopvars:
+        return ctx.loopvars[e.id]
+    if isinstance(e, ast.Name) and ctx.state.get(e.id) == "uZ":
+        # a loop variable read after its loop: unbound (NameError) when the loop body never ran
+        return T("(bound_z (v_%s s))" % e.id, "Z", False)
     if isinstance(e, ast.Name):
         if e.id in ctx.state:
             return T("(v_%s s)" % e.id, ctx.state[e.id])
@@ -239,6 +259,24 @@ def expr(ctx, e):
         return T("(ite_r %s %s %s)" % (lifted(c), lifted(a), lifted(b)), a.ty, False)
     if isinstance(e, ast.Call) and isinstance(e.func, ast.Name) and e.func.id == "cast" and len(e.args) == 2:
         return expr(ctx, e.args[1])  # typing.cast is the identity
+    if isinstance(e, ast.Call) and isinstance(e.func, ast.Name) and e.func.id in ("sum", "list") and len(e.args) == 1 and not e.keywords:
+        x = expr(ctx, e.args[0])
+        if x.ty != "zlist":
+            raise Decline("%s of %s" % (e.func.id, x.ty))
+        if e.func.id == "list":
+            return x
+        return bind_all(ctx, [x], lambda n: T("(sumZ %s)" % n[0], "Z"))
+    if isinstance(e, ast.List) and not e.elts:
+        return T("[]", "zlist")
+    # mapping.<dict field>.get(key, [])
+    if (isinstance(e, ast.Call) and isinstance(e.func, ast.Attribute) and e.func.attr == "get" and len(e.args) == 2
+            and isinstance(e.args[1], ast.List) and not e.args[1].elts and isinstance(e.func.value, ast.Attribute)
+            and isinstance(e.func.value.value, ast.Name)):
+        d = dict_field(ctx, e.func.value)
+        if d is None or d[1] != "odictZlist":
+            raise Decline("dict .get")
+        k = to_z(ctx, expr(ctx, e.args[0]))
+        return bind_all(ctx, [k], lambda n: T("(match oget %s %s with Some l => l | None => [] end)" % (d[0], n[0]), "zlist"))
     raise Decline("expression " + type(e).__name__)
 
 
@@ -256,6 +294,8 @@ def record_value(ctx, call, rec):
 
 def assign(ctx, target, value_t):
     """state update s -> res st for target := value"""
+    if isinstance(target, ast.Name) and target.id in ctx.loopvars:
+        raise Decline("assignment to a loop variable")
     if isinstance(target, ast.Name) and target.id in ctx.state:
         v = coerce(ctx, value_t, ctx.state[target.id])
         fld = "v_" + target.id
@@ -305,6 +345,9 @@ def stmt(ctx, s):
             raise Decline("while/else")
         c = to_bool(ctx, expr(ctx, s.test))
         return "(while_ fuel (fun s => %s) (fun s => %s) s)" % (lifted(c), stmts(ctx, s.body))
+    if (isinstance(s, ast.Expr) and isinstance(s.value, ast.Call) and isinstance(s.value.func, ast.Attribute)
+            and s.value.func.attr == "insert"):
+        return insert_front(ctx, s)
     if isinstance(s, ast.Expr) and isinstance(s.value, ast.Call):
         call = s.value
         if isinstance(call.func, ast.Name) and call.func.id in ctx.closures and not call.args and not call.keywords:
@@ -323,9 +366,80 @@ def stmt(ctx, s):
         vals = [to_z(ctx, expr(ctx, x)) for x in v.elts]
         r = bind_all(ctx, vals, lambda n: T("(set_v_out s (v_out s ++ [(%s)]))" % ", ".join(n), "st"))
         return lifted(r)
+    if isinstance(s, ast.For):
+        return for_loop(ctx, s)
+    if (isinstance(s, ast.Expr) and isinstance(s.value, ast.Call) and isinstance(s.value.func, ast.Attribute)
+            and s.value.func.attr == "insert" and isinstance(s.value.func.value, ast.Name)
+            and ctx.state.get(s.value.func.value.id) == "zlist" and len(s.value.args) == 2
+            and isinstance(s.value.args[0], ast.Constant) and s.value.args[0].value == 0):
+        nm = s.value.func.value.id
+        v = to_z(ctx, expr(ctx, s.value.args[1]))
+        r = bind_all(ctx, [v], lambda n: T("(set_v_%s s (%s :: v_%s s))" % (nm, n[0], nm), "st"))
+        return lifted(r)
     if isinstance(s, ast.FunctionDef):
         return None  # closures are translated separately
     raise Decline("statement " + type(s).__name__)
+
+
+def insert_front(ctx, s):
+    c = s.value
+    if not (isinstance(c.func.value, ast.Name) and ctx.state.get(c.func.value.id) == "zlist" and len(c.args) == 2
+            and isinstance(c.args[0], ast.Constant) and c.args[0].value == 0):
+        raise Decline("insert")
+    nm = c.func.value.id
+    v = to_z(ctx, expr(ctx, c.args[1]))
+    r = bind_all(ctx, [v], lambda n: T("(set_v_%s s (%s :: v_%s s))" % (nm, n[0], nm), "st"))
+    return lifted(r)
+
+
+def for_loop(ctx, s):
+    """for x in <list>: body  ->  foldM over the list; the loop variables are binders inside the body and, when
+    declared in the state (type uZ), are recorded there so that they can be read after the loop"""
+    if s.orelse:
+        raise Decline("for/else")
+    it = s.iter
+    binder, new = None, {}
+    if (isinstance(it, ast.Call) and isinstance(it.func, ast.Attribute) and it.func.attr == "items" and not it.args
+            and dict_field(ctx, it.func.value) and dict_field(ctx, it.func.value)[1] == "odictOptZ"):
+        lst = dict_field(ctx, it.func.value)[0]
+        if not (isinstance(s.target, ast.Tuple) and len(s.target.elts) == 2 and all(isinstance(x, ast.Name) for x in s.target.elts)):
+            raise Decline("loop target over dict items")
+        k, v = s.target.elts[0].id, s.target.elts[1].id
+        binder = "'(%s, %s)" % (k, v)
+        new = {k: T(k, "Z"), v: T(v, "optZ")}
+    elif isinstance(it, ast.Name) and ctx.state.get(it.id) == "zlist" and isinstance(s.target, ast.Name):
+        lst = "(v_%s s)" % it.id
+        for n in ast.walk(s):
+            if isinstance(n, ast.Name) and isinstance(n.ctx, ast.Store) and n.id == it.id:
+                raise Decline("the iterated list is reassigned in the loop")
+        binder = s.target.id
+        new = {s.target.id: T(s.target.id, "Z")}
+    else:
+        raise Decline("loop over " + ast.dump(it)[:60])
+    for n in new:
+        if n in ctx.loopvars or n in ctx.params:
+            raise Decline("loop variable shadows a name")
+    saved = dict(ctx.loopvars)
+    ctx.loopvars.update(new)
+    record = [n for n in new if ctx.state.get(n) == "uZ"]
+    body = stmts(ctx, s.body)
+    for n in reversed(record):
+        body = "(bind (OK (set_v_%s s (Some %s))) (fun s => %s))" % (n, n, body)
+    ctx.loopvars = saved
+    if getattr(ctx, "named_loops", None) is not None:
+        # the body becomes a definition of its own (so that lemmas can be stated about it): parameters are the
+        # function's variable parameters and the variables of the enclosing loops
+        k = len(ctx.named_loops) + 1
+        name = "loop%d_body" % k
+        outer = [(n, t.ty) for n, t in saved.items()]
+        fparams = [(n, ty) for n, ty in ctx.params.items() if isinstance(ty, str) and ty in ("linemap", "bytes", "Z", "bool", "optZ")]
+        sig = " ".join("(%s : %s)" % (n, {"linemap": "linemap", "bytes": "list Z"}.get(ty, COQ_TY.get(ty, ty))) for n, ty in fparams + outer)
+        args = " ".join(n for n, _ in fparams + outer)
+        bty = "(kv : Z * option Z)" if binder.startswith("'") else "(%s : Z)" % binder
+        pre = "let %s := kv in " % binder if binder.startswith("'") else ""
+        ctx.named_loops.append("Definition %s %s (s : st) %s : res st :=\n  %s%s." % (name, sig, bty, pre, body))
+        return "(foldM (%s %s) %s s)" % (name, args, lst)
+    return "(foldM (fun s %s => %s) %s s)" % (binder, body, lst)
 
 
 def _as_load(t):
@@ -336,8 +450,8 @@ def _as_load(t):
     raise Decline("augmented assignment target")
 
 
-COQ_TY = {"Z": "Z", "optZ": "option Z", "bool": "bool"}
-DEFAULT = {"Z": "0", "optZ": "None", "bool": "false"}
+COQ_TY = {"Z": "Z", "optZ": "option Z", "bool": "bool", "zlist": "list Z", "uZ": "option Z"}
+DEFAULT = {"Z": "0", "optZ": "None", "bool": "false", "zlist": "[]", "uZ": "None"}
 
 
 def record_decl(fields):
@@ -520,6 +634,99 @@ def translate_collapse_items(tree):
 
 
 # ---------------------------------------------------------------------------------------------------------
+# mapping_to_items: both branches (co_linetable sections, co_lnotab entries)
+
+M2I_TYPES = {"section_bytecode_offset": "optZ", "section_line_number": "optZ", "last_section_line_number": "Z",
+             "section_line_number_diff": "optZ", "switching_sections": "bool",
+             "last_line_number": "Z", "last_bytecode_offset": "Z", "additional_line_offsets": "zlist",
+             "first_line_offset": "Z", "all_line_offsets": "zlist"}
+
+
+def translate_branch(modname, body, out_name, lt_value):
+    """statements ending in `return <out_name>` -> Module with a state record and `run`"""
+    if not (body and isinstance(body[-1], ast.Return) and isinstance(body[-1].value, ast.Name) and body[-1].value.id == out_name):
+        raise Decline("return of a branch of mapping_to_items")
+    body = body[:-1]
+    assigned, loopnames = [], set()
+    for st in body:
+        for n in ast.walk(st):
+            if isinstance(n, ast.For):
+                for x in ast.walk(n.target):
+                    if isinstance(x, ast.Name):
+                        loopnames.add(x.id)
+    for st in body:
+        for n in ast.walk(st):
+            if isinstance(n, ast.Name) and isinstance(n.ctx, ast.Store) and n.id not in loopnames and n.id not in assigned:
+                assigned.append(n.id)
+    state = {}
+    for a in sorted(assigned):
+        if a not in M2I_TYPES:
+            raise Decline("undeclared local " + a)
+        state[a] = M2I_TYPES[a]
+    # loop variables read outside their loop (after it): recorded in the state
+    outside = set()
+    def scan(stmts_, inside):
+        for st in stmts_:
+            if isinstance(st, ast.For):
+                names = {x.id for x in ast.walk(st.target) if isinstance(x, ast.Name)}
+                scan(st.body, inside | names)
+            else:
+                subs = [getattr(st, "body", []), getattr(st, "orelse", [])]
+                own = ast.copy_location(ast.Module(body=[], type_ignores=[]), st)
+                for n in ast.walk(st):
+                    if isinstance(n, ast.Name) and isinstance(n.ctx, ast.Load) and n.id in loopnames and n.id not in inside:
+                        outside.add(n.id)
+    # simple version: a loop variable name loaded in a top-level statement that is not a For
+    for st in body:
+        if not isinstance(st, ast.For):
+            for n in ast.walk(st):
+                if isinstance(n, ast.Name) and isinstance(n.ctx, ast.Load) and n.id in loopnames:
+                    outside.add(n.id)
+    for n in outside:
+        state[n] = "uZ"
+    params = {"is_linetable": ("bool", lt_value), "mapping": "linemap"}
+    ctx = Ctx(state, params, {}, RECORDS, {out_name: "citem"})
+    ctx.named_loops = []
+    fields = [("v_" + a, COQ_TY[t], DEFAULT[t]) for a, t in state.items()] + [("v_" + out_name, "list (option Z * Z)", "[]")]
+    # before the (single) top-level loop, the loop, after it
+    loops = [i for i, st in enumerate(body) if isinstance(st, ast.For)]
+    if len(loops) != 1:
+        raise Decline("number of top-level loops")
+    i = loops[0]
+    pre, loop, post = stmts(ctx, body[:i]), stmts(ctx, [body[i]]), stmts(ctx, body[i + 1:])
+    defs = "\n".join(ctx.named_loops)
+    return ("Module %s.\n%s\n%s\n"
+            "Definition pre (mapping : linemap) (s : st) : res st :=\n  %s.\n"
+            "Definition loop (mapping : linemap) (s : st) : res st :=\n  %s.\n"
+            "Definition post (mapping : linemap) (s : st) : res st :=\n  %s.\n"
+            "Definition run (mapping : linemap) : res (list (option Z * Z)) :=\n"
+            "  bind (pre mapping init) (fun s => bind (loop mapping s) (fun s => bind (post mapping s) (fun s => OK (v_%s s)))).\nEnd %s.\n"
+            % (modname, record_decl(fields), defs, pre, loop, post, out_name, modname))
+
+
+def translate_mapping_to_items(tree):
+    f = find_def(tree.body, "mapping_to_items")
+    if [a.arg for a in f.args.args] != ["mapping", "is_linetable"]:
+        raise Decline("signature of mapping_to_items")
+    body = [s for s in f.body if not (isinstance(s, ast.Expr) and isinstance(s.value, ast.Constant))]
+    s0 = body[0]
+    if not (isinstance(s0, ast.Assign) and isinstance(s0.targets[0], ast.Name)):
+        raise Decline("first statement of mapping_to_items")
+    out_name = s0.targets[0].id
+    v = s0.value
+    if isinstance(v, ast.Call) and isinstance(v.func, ast.Name) and v.func.id == "cast":
+        v = v.args[1]
+    if not (isinstance(v, ast.List) and not v.elts):
+        raise Decline("initial value of the output list")
+    br = body[1]
+    if not (isinstance(br, ast.If) and isinstance(br.test, ast.Name) and br.test.id == "is_linetable" and not br.orelse):
+        raise Decline("branch on is_linetable")
+    a = translate_branch("MappingToItemsLt", list(br.body), out_name, "true")
+    b = translate_branch("MappingToItemsLnotab", body[2:], out_name, "false")
+    return a + b
+
+
+# ---------------------------------------------------------------------------------------------------------
 # _blocks._parse_bytes: a generator over range(0, len(b), 2) with two accumulators
 
 def translate_parse_bytes(tree):
@@ -577,10 +784,11 @@ def translate_parse_bytes(tree):
 
 ITEMS = [("expand_items", "_line_mapping.py", translate_expand_items),
          ("collapse_items", "_line_mapping.py", translate_collapse_items),
-         ("parse_bytes", "_blocks.py", translate_parse_bytes)]
+         ("parse_bytes", "_blocks.py", translate_parse_bytes),
+         ("mapping_to_items", "_line_mapping.py", translate_mapping_to_items)]
 
 HEADER = ("(* generated by harness/translate_lines.py from /repo/code_data/_line_mapping.py on every run; do not edit *)\n"
-          "From PCD Require Import Base.PyBase Base.PyImp.\nFrom PCD Require Gen.Src.\n\n")
+          "From PCD Require Import Base.PyBase Base.PyImp Model.LineTable.\nFrom PCD Require Gen.Src.\n\n")
 
 
 def generate(repo, outpath, fallback_dir, write_fallback=False):
